@@ -54,7 +54,12 @@ func (s *Sim) observeVote(n *Node, in *inst, v UVote, wire []byte) {
 		s.maxPeriod[v.R.Round] = v.R.Period
 	}
 	if own && s.sync != nil && s.syncMode && v.R.Round == s.sync.target {
-		s.sync.periods[v.R.Period] = true
+		// Only periods at or beyond the frontier (the most advanced period any honest node had reached at GST)
+		// count: a node that was many periods behind walks through the old periods as the bundles still in
+		// flight reach it, one after the other - that is catching up, not a failed attempt to agree.
+		if v.R.Period >= s.sync.perBase {
+			s.sync.periods[v.R.Period] = true
+		}
 	}
 	if own && v.R.Step >= stepSoft {
 		// C02 history oracle: one value per (key, round, period, step), over all incarnations
